@@ -349,8 +349,16 @@ class Conic(Quadric):
         if any(tangent.contains(p) for p in [a, b, c, d]):
             raise IncidenceError("The supplied points cannot lie on the supplied tangent!")
 
-        a1, a2 = Line(a, c).meet(tangent).normalized_array, Line(b, d).meet(tangent).normalized_array
-        b1, b2 = Line(a, b).meet(tangent).normalized_array, Line(c, d).meet(tangent).normalized_array
+        def representative(p: Point) -> np.ndarray:
+            # the choice between the two solutions below depends on the sign of these coordinate vectors: take one that
+            # does not depend on the homogeneous scale of the arguments, also for a point at infinity
+            arr = p.normalized_array
+            if p.isinf:
+                arr = arr / arr[np.flatnonzero(~np.isclose(arr, 0, atol=EQ_TOL_ABS))[0]]
+            return arr
+
+        a1, a2 = representative(Line(a, c).meet(tangent)), representative(Line(b, d).meet(tangent))
+        b1, b2 = representative(Line(a, b).meet(tangent)), representative(Line(c, d).meet(tangent))
 
         o = tangent.general_point.array
 
